@@ -269,6 +269,12 @@ func classes(c mcase) []string {
 	if c.ViaParse {
 		out = append(out, "via-parse")
 	}
+	for _, l := range c.Setup {
+		if len(l) > 16 {
+			out = append(out, "large-dimension")
+			break
+		}
+	}
 	return out
 }
 
@@ -299,8 +305,24 @@ func genCase(t *rapid.T) mcase {
 		}
 		c.Setup[d] = l
 	}
+	// now and then large dimensions (beyond any small-list threshold), with values that also occur in,
+	// or are borrowed from, the other dimensions
+	largeDims := len(names) >= 1 && rapid.IntRange(0, 9).Draw(t, "largedims") == 0
+	if largeDims {
+		for _, d := range names {
+			n := rapid.IntRange(17, 40).Draw(t, "nlarge")
+			l := make([]string, 0, n)
+			for i := 0; i < n; i++ {
+				l = append(l, fmt.Sprintf("%s-%d", d, i))
+			}
+			c.Setup[d] = l
+		}
+	}
 	skip := rapid.SampledFrom([]any{nil, nil, false, true, "reason", "false"})
 	na := rapid.IntRange(0, 4).Draw(t, "na")
+	if rapid.IntRange(0, 19).Draw(t, "manyadj") == 0 {
+		na = rapid.IntRange(9, 70).Draw(t, "namany")
+	}
 	for i := 0; i < na; i++ {
 		a := adj{With: map[string]string{}, Skip: skip.Draw(t, "skip")}
 		if i > 0 && rapid.IntRange(0, 2).Draw(t, "repeat") == 0 {
@@ -379,6 +401,19 @@ func genCase(t *rapid.T) mcase {
 				c.Perm[d] = val.Draw(t, "pv")
 			}
 		}
+	}
+	if largeDims && len(names) >= 2 && rapid.Bool().Draw(t, "borrow") {
+		// a value borrowed from another (large) dimension's list
+		ds := append([]string{}, names...)
+		sort.Strings(ds)
+		i := rapid.IntRange(0, len(ds)-1).Draw(t, "borrowdim")
+		j := (i + 1 + rapid.IntRange(0, len(ds)-2).Draw(t, "borrowfrom")) % len(ds)
+		for _, d := range ds {
+			if _, ok := c.Perm[d]; !ok && len(c.Setup[d]) > 0 {
+				c.Perm[d] = c.Setup[d][0]
+			}
+		}
+		c.Perm[ds[i]] = rapid.SampledFrom(c.Setup[ds[j]]).Draw(t, "borrowed")
 	}
 	// occasionally perturb one value
 	if len(c.Perm) > 0 && rapid.IntRange(0, 5).Draw(t, "perturb") == 0 {
